@@ -7,8 +7,8 @@ ACTIONS = ["Init", "Next"]
 
 META = {
     "category": "model_checking",
-    "text": "The RDATA layout of all 38 record types the library implements (plus OPT options and unknown types) is one table in Rdata.tla, transcribed from the RFCs, with generic compose / parse / length / canonical-form operators. TLC checks the table's own laws (parse inverts compose, length, canonical form lower-cases exactly the RFC 4034 6.2 / RFC 6840 5.1 names, trailing octets rejected, compressed input names) over boundary values per field kind with up to 2 (quick) / 3 (thorough) fields varied per value. Every explored value, its compressed-name renderings and five damaged variants are replayed through the real parsers (AllRecordData, ZoneRecordData, UnknownRecordData), plain and compressing composers, rdlen and compose_canonical_rdata; the builders are bound to the table as small machines (RtypeBitmapBuilder add sequences, SvcParamsBuilder / from_values push orders, TxtBuilder operation sequences, AlpnBuilder), as are ProtoRrsig, the reference forwarding impls and flatten conversions; recorded runs on random values of every type up to the 65535-octet limit are validated by TLC against the table.",
-    "note": "Trusted: TLC, the transcription of the RFC layouts in Rdata.tla, the harness. Inputs that break only an RFC content rule (empty TXT, non-minimal type bitmap, unordered SvcParams, short ZONEMD digest, undefined IPSECKEY gateway type) may be accepted or rejected. Per-type new() constructors of plain field structs are not bound to the table (values are obtained by parsing, through the listed builders, or by conversion). Field identity between wire and presentation format / accessors is not checked (a parse/compose pair that swaps two equal-width fields consistently is invisible here). Values beyond the boundary domains are sampled, not enumerated. Semantic validation of individual EDNS option / SvcParam values is not checked beyond framing.",
+    "text": "The RDATA layout of all 38 record types the library implements (plus OPT options and unknown types) is one table in Rdata.tla, transcribed from the RFCs, with generic compose / parse / length / canonical-form operators. TLC checks the table's own laws (parse inverts compose, length, canonical form lower-cases exactly the RFC 4034 6.2 / RFC 6840 5.1 names, trailing octets rejected, compressed input names) over boundary values per field kind with up to 2 (quick) / 3 (thorough) fields varied per value. Every explored value, its compressed-name renderings and five damaged variants are replayed through the real parsers (AllRecordData, ZoneRecordData, UnknownRecordData), plain and compressing composers, rdlen and compose_canonical_rdata; the builders are bound to the table as small machines (RtypeBitmapBuilder add sequences, SvcParamsBuilder / from_values push orders, TxtBuilder operation sequences, AlpnBuilder), as are ProtoRrsig, the reference forwarding impls and flatten conversions; recorded runs on random values of every type up to the 65535-octet limit are validated by TLC against the table. Values that are CONSTRUCTED rather than parsed are bound as well: the twelve EDNS options have a value model in Rdata.tla (OptArgOk / OptNorm: what each constructor documents to refuse and to normalise, e.g. ClientSubnet::new clamping both prefix lengths to the family's width and clearing the address bits beyond the source prefix; OptData / OptValueOf: the value's option data and its reading), MC_OptBuild.tla is the OPT record under construction (Push over the boundary grid of every constructor's argument space: client-subnet prefix 0 / 1 / 7 / 8 / 9 / 31 / 32 / 33 / 63..65 / 127..129 / 255 x scope x all-ones / alternating / single bit at each prefix boundary, both families; cookie server lengths 0..40; idle timeouts as durations around 65535 units; EDE codes x UTF-8 texts; algorithm and key-tag lists of even and odd length; ...) with laws LawNorm, LawOptRoundTrip, LawEcsPrivacy, LawRecord, LawRefused; every reachable record of one or two options is built in the real library through every constructor of the option type, Opt::push, OptRecord::push and the typed and generic OptBuilder pushes, and read back through Opt::iter (AllOptData and typed), first() and the typed getters; recorded runs do the same with random arguments (events optbuild). Every explored value of every record type is also built through the type's own new() / builder from its fields (mode ctor) and the LongRecordData boundary is probed at 65534 / 65535 / 65536 octets for 14 types (mode ctorlong).",
+    "note": "Trusted: TLC, the transcription of the RFC layouts in Rdata.tla, the harness. Inputs that break only an RFC content rule (empty TXT, non-minimal type bitmap, unordered SvcParams, short ZONEMD digest, undefined IPSECKEY gateway type) may be accepted or rejected. Constructor arguments are boundary grids, not all values; option data beyond Big (300 / 400) octets is not constructed (the 65535-octet limit of a single option and Opt::push's record limit are not probed); an ExtendedError with text Some("") and one with no text are the same value (RFC 8914) and their == is not judged; Cookie::create_initial / create_response, random_padding (random) and the unsafe *_unchecked constructors are not driven. Field identity between wire and presentation format / accessors is not checked (a parse/compose pair that swaps two equal-width fields consistently is invisible here). Values beyond the boundary domains are sampled, not enumerated. Semantic validation of individual EDNS option / SvcParam values is not checked beyond framing.",
     "technique": "TLA+ spec (Rdata.tla table) + TLC exhaustive over boundary domains; spec->impl case replay; impl->spec trace validation",
     "design_ref": "DESIGN.md §4 C05",
 }
@@ -16,6 +16,38 @@ META = {
 ISSUE_DEV = {
     "value parsed back compares unequal (==)": "D_alldata_eq_opt_unknown",
 }
+OPT_ACTIONS = ["Init", "PushFirst", "PushMore"]
+OPT_KINDS = ["NSID", "DAU", "DHU", "N3U", "ECS", "EXPIRE", "COOKIE", "KEEPALIVE", "PADDING",
+             "CHAIN", "KEYTAG", "EDE"]
+
+
+def optbuild_guard(path):
+    """Vacuity guard of the constructor stage, keyed on the generated inputs:
+    every option kind, refused arguments, records of two options, and the
+    client-subnet grid at its corners (prefix 0 / beyond the family's width
+    with address bits set, both families)."""
+    kinds, refused, pairs, singles, corners = set(), 0, 0, 0, set()
+    with open(path) as f:
+        for line in f:
+            c = json.loads(line)
+            ps = c["in"]["pushes"]
+            pairs += len(ps) > 1
+            singles += len(ps) == 1
+            refused += any("refused" in st for st in c["exp"]["steps"])
+            for a in ps:
+                kinds.add(a["o"])
+                if a["o"] == "ECS" and any(a["addr"]):
+                    bits = 32 if a["fam"] == 1 else 128
+                    for name, hit in (("src0", a["src"] == 0), ("srcmax", a["src"] == bits),
+                                      ("srcover", a["src"] > bits), ("scopeover", a["scope"] > bits),
+                                      ("midoctet", 0 < a["src"] < bits and a["src"] % 8 != 0)):
+                        if hit:
+                            corners.add((a["fam"], name))
+    missing = [k for k in OPT_KINDS if k not in kinds]
+    if missing or refused < 10 or pairs < 100 or len(corners) < 10:
+        raise vlib.ToolError("vacuity: constructor cases lack kinds %s / refused %d / pairs %d / "
+                             "client-subnet corners %d of 10" % (missing, refused, pairs, len(corners)))
+    return {"Init": 1, "PushFirst": singles, "PushMore": pairs}
 
 
 def run(ctx):
@@ -36,6 +68,17 @@ def run(ctx):
     devrun = ctx.tlc("MC_Rdata", "MC_Rdata_dev", workers=4, label="mc-dev", coverage=False,
                      count=False, expect_violation="LawImplEq")
     ctx.require_ok(devrun, "MC_Rdata_dev (expected counterexample for D_alldata_eq_opt_unknown)")
+    # 1b. option values as the constructors and the OPT builders make them
+    # (documented normalisation, refusal, value -> data -> value, the record)
+    # (without TLC's coverage instrumentation, which takes 40 s to evaluate the
+    # argument domain; which actions were taken is measured on the generated
+    # behaviours below: one case per reachable state)
+    mco = ctx.tlc("MC_OptBuild", "MC_OptBuild" + suffix, workers=8, label="mc-optbuild", coverage=False)
+    ctx.require_ok(mco, "MC_OptBuild")
+    ctx.exhaustive_flags.append(False)
+    devrun2 = ctx.tlc("MC_OptBuild", "MC_OptBuild_dev", workers=4, label="mc-optbuild-dev",
+                      coverage=False, count=False, expect_violation="LawImplReadsBack")
+    ctx.require_ok(devrun2, "MC_OptBuild_dev (expected counterexample for D_understood_odd_len)")
     # 2. S->I
     cases = os.path.join(ctx.work, "cases.ndjson")
     gen = ctx.tlc("MC_Rdata", "Gen_Rdata" + suffix, workers=8, label="gen", coverage=False,
@@ -52,6 +95,29 @@ def run(ctx):
     rc, out, err, _ = ctx.run_bin("replay_rdata", ["--selftest-perturb"], stdin_path=head)
     ctx.selftest("perturbed expectation is reported by replay_rdata", "FAIL " in out)
     ctx.replay_cases("replay_rdata", cases, label="rdata")
+    ocases = os.path.join(ctx.work, "cases-optbuild.ndjson")
+    geno = ctx.tlc("MC_OptBuild", "Gen_OptBuild" + suffix, workers=8, label="gen-optbuild",
+                   coverage=False, cases_to=ocases, count=False)
+    ctx.require_ok(geno, "Gen_OptBuild")
+    if geno.ncases < 3000:
+        raise vlib.ToolError("constructor-case generator produced too few cases (%d)" % geno.ncases)
+    taken = optbuild_guard(ocases)
+    if geno.distinct != mco.distinct or sum(taken.values()) != geno.distinct:
+        raise vlib.ToolError("MC_OptBuild: law run and generator run explored different state spaces")
+    for a in OPT_ACTIONS:
+        if taken[a] == 0:
+            raise vlib.ToolError("vacuity: action never taken: " + a)
+        if a != "Init":
+            ctx.coverage_actions[a] = (taken[a], taken[a])
+    ohead = os.path.join(ctx.work, "head-optbuild.ndjson")
+    with open(ocases) as f, open(ohead, "w") as g:
+        for i, line in enumerate(f):
+            if i >= 20:
+                break
+            g.write(line)
+    rc, out, err, _ = ctx.run_bin("replay_rdata", ["--selftest-perturb"], stdin_path=ohead)
+    ctx.selftest("perturbed expectation of a constructor case is reported by replay_rdata", "FAIL " in out)
+    ctx.replay_cases("replay_rdata", ocases, label="optbuild")
     # 3. I->S
     n_traces = 4 if thorough else 2
     n_events = 4000 if thorough else 1500
@@ -72,20 +138,28 @@ def run(ctx):
         if not ok:
             ctx.violation("recorded record-data answers are not what the Layout table gives", rej)
         else:
+            n_opt = 0
             for l in lines:
+                if '"ev":"optbuild"' in l:
+                    n_opt += 1
+                    if '"unreadable"' in l and "D_understood_odd_len" in ctx.open_devs:
+                        ctx.known("D_understood_odd_len", {"pushes": json.loads(l)["pushes"]})
+                    continue
                 if '"issues":[]' in l or '"issues"' not in l:
                     continue
                 e = json.loads(l)
                 for d in sorted({ISSUE_DEV.get(x, "?") for x in e["issues"]}):
                     if d in ctx.open_devs:
                         ctx.known(d, {"rtype": e["rtype"], "rd": e["rd"][:64], "issues": e["issues"]})
+            if n_opt < n_events // 20:
+                raise vlib.ToolError("vacuity: trace has only %d constructor-built OPT records" % n_opt)
         if i == 0:
             # binding self-test: corrupt one recorded canonical form / length
             bad = os.path.join(ctx.work, "trace-bad.ndjson")
             done = False
             for j, l in enumerate(lines):
                 e = json.loads(l)
-                if e.get("parse") == "ok" and len(e["canon"]) > 0 and j > 20:
+                if e.get("parse") == "ok" and len(e.get("canon", [])) > 0 and j > 20:
                     e["canon"][-1] ^= 0x20
                     lines[j] = json.dumps(e)
                     done = True
@@ -93,6 +167,23 @@ def run(ctx):
             open(bad, "w").write("\n".join([devline] + lines) + "\n")
             ok2, _, _ = ctx.validate_trace("Trace_Rdata", "Trace_Rdata", bad, label="trace-selftest")
             ctx.selftest("corrupted trace is rejected by Trace_Rdata", done and not ok2)
+            lines2 = open(raw).read().splitlines()
+            done = False
+            for j, l in enumerate(lines2):
+                e = json.loads(l)
+                if e.get("ev") == "optbuild" and e["obs"].get("iter") and e["obs"]["issues"] == []:
+                    for w in e["obs"]["iter"]:
+                        if w["o"] == "ECS":
+                            w["addr"][0] ^= 0x80           # an address bit the value does not have
+                            done = True
+                            break
+                    if done:
+                        lines2[j] = json.dumps(e)
+                        break
+            bad2 = os.path.join(ctx.work, "trace-bad-optbuild.ndjson")
+            open(bad2, "w").write("\n".join([devline] + lines2[:j + 1]) + "\n")
+            ok3, _, _ = ctx.validate_trace("Trace_Rdata", "Trace_Rdata", bad2, label="trace-selftest-optbuild")
+            ctx.selftest("corrupted constructor event is rejected by Trace_Rdata", done and not ok3)
     ctx.assume("inputs breaking only an RFC content rule (soft failures of ParseRd) may be accepted or rejected")
     ctx.assume("which embedded names are compressed on compressing targets is not judged: only a consistent RDLENGTH and a re-parse to an equal value with the same uncompressed octets are required there")
     ctx.assume("compressed names on input are generated only for the RFC 1035 types")
